@@ -429,6 +429,12 @@ Definition dispatch_gen (c : mcfg) (op : tok) (args : list tok) : option (list t
         end
     | _ => Some bad
     end
+  else if is_sym op "spec_len" then
+    (* the reference's own length code (Spec/SpecLength.v over the golden table), used as the oracle of the failing-input search *)
+    match args with
+    | [TN n] => Some (match spec_len_code n with Some c => [S "some"; TN c] | None => [S "none"] end)
+    | _ => Some bad
+    end
   else if is_sym op "hashbuf" then
     match args with
     | [vt; TB data] =>
